@@ -330,7 +330,7 @@ def check_c18(opts):
         words = ['\u00e9t\u00e9', '\u20ac\u20ac\u20ac', '\U0001F600\U0001F601', '\u4e2d\u6587\u5b57', 'a,b', 'q"q', '', ' x ']
         for nrows in (0, 1, 4000 if tier == 'quick' else 20000):
             items = [Item(i, words[i % len(words)] * (1 + i % 3), i / 8) for i in range(nrows)]
-            for enc in (None, 'utf-8'):
+            for enc in ((None, 'utf-8') if nrows else (None, 'utf-8', 'utf-16', 'utf-32', 'utf-8-sig')) + (('utf-16', 'utf-32', 'utf-8-sig') if nrows == 1 else ()) + (('utf-16',) if nrows > 1 else ()):
                 fn = os.path.join(d, f'c_{nrows}_{enc}.csv')
                 try:
                     run_plain(items, csv.dump_to_file(fn, encoding=enc))
@@ -378,7 +378,7 @@ def check_c18(opts):
     finally:
         import shutil; shutil.rmtree(d, ignore_errors=True)
     return result('e2e.C18.csv', 'escape characters ^ and ~ (strings over {sep, quote, escape, a, backslash}); files of 0 / 1 / 4000 (20000) rows of multi-byte text through dump_to_file / load_from_file '
-                  '(> 64 KiB read chunks, encoding None / utf-8); the same dump pipeline subscribed twice; floats: 13 special + 600 (10000) seeded; ints incl. > 64 bit; strings: length <= 3 (4) over {sep, quote, escape, a, space} in 1-2 columns x 5 separators; text re-chunked in two',
+                  '(> 64 KiB read chunks, encoding None / utf-8 / utf-16 / utf-32 / utf-8-sig: one byte-order mark per file); the same dump pipeline subscribed twice; floats: 13 special + 600 (10000) seeded; ints incl. > 64 bit; strings: length <= 3 (4) over {sep, quote, escape, a, space} in 1-2 columns x 5 separators; text re-chunked in two',
                   evals, evals, fails, False, t0)
 
 
